@@ -110,6 +110,38 @@ def run_case(args):
     return run_ops(d, k, inst, ops)
 
 
+def enc_ops(ops):
+    out = [str(len(ops))]
+    for o in ops:
+        k = o[0]
+        if k == "spawn":
+            out += [k, str(o[1]), str(len(o[2]))] + o[2]
+        elif k == "spawn_dummy":
+            out += [k, str(o[1]), str(o[2])]
+        elif k == "delete":
+            out += [k, str(o[1])]
+        elif k == "addpath":
+            out += [k, str(o[1]), str(len(o[2]))] + o[2]
+        elif k == "removeseg":
+            out += [k, str(o[1]), str(o[2]), str(o[3])]
+        elif k in ("fit", "override"):
+            out += [k] + [str(x) for x in o[1:5]]
+        elif k in ("improve", "recompute"):
+            out += [k, str(len(o[1]))] + [str(x) for x in o[1]]
+        else:
+            out += [k]
+    return " ".join(out)
+
+
+def norm_lines(lines):
+    out = []
+    for l in lines:
+        if l.startswith("#"):
+            continue
+        out.append(" ".join(t for t in l.split() if not t.startswith("input_unchanged=")))
+    return out
+
+
 def run_ops(d, k, inst, ops):
     case = {"instance": inst, "ops": ops}
     cpath = os.path.join(d, "c%d.json" % k)
@@ -137,6 +169,19 @@ def run_ops(d, k, inst, ops):
         f.write(" ".join(str(x) for x in instgen.encode(inst, perm)) + "\n" + "\n".join(toks) + "\n")
     mout = os.path.join(d, "c%d.chk" % k)
     res["dstatus"] = lib.run_driver("opscheck", mpath, mout, timeout=600)
+    # the functional model of Schedule (Schedule.v) replays the same history: every line must be equal
+    m2 = os.path.join(d, "c%d.mops" % k)
+    with open(m2, "w") as f:
+        f.write(" ".join(str(x) for x in instgen.encode(inst, perm)) + "\n" + enc_ops(ops) + "\n")
+    m2out = os.path.join(d, "c%d.model" % k)
+    st2 = lib.run_driver("opsmodel", m2, m2out, timeout=600)
+    res["model_diff"] = None
+    if st2 != "OK":
+        res["model_diff"] = "driver: " + st2[:200]
+    else:
+        fd = lib.first_diff(norm_lines(impl), norm_lines(lib.read_lines(m2out)))
+        if fd:
+            res["model_diff"] = "line %d: impl=[%s] model=[%s]" % (fd[0], fd[1][:300], fd[2][:300])
     for l in lib.read_lines(mout):
         p = l.split()
         if p[0] == "CHK":
